@@ -103,6 +103,9 @@ def generate(ctx):
         kw = dict(num_tracks=nt, velocity_bins=rng.choice([1, 2, 4]), running=rng.random() < 0.5, fuse_track=rng.random() < 0.5,
                   fuse_value=rng.random() < 0.5, fuse_velocity=rng.random() < 0.5, simplify_ts=rng.random() < 0.5,
                   pitch_range=(58, 66))
+        if rng.random() < 0.3:
+            kw["ppqn"] = rng.choice([12, 48, 96, 6])      # a tokeniser built for another resolution
+            ctx.count("ppqn:non-default")
         cfg = P.TkCfg(**kw)
         tk = cfg.tk()
         keys = list(tk.dictionary.keys())
